@@ -411,6 +411,19 @@ func (vfs *MemFS) link(oldname, newname string) (retry bool, err error) {
 		return false, vfs.err.PermDenied
 	}
 
+	if sl, ok := oChild.(*symlinkNode); ok {
+		// oldname is not followed : the new name is another name of the symbolic link itself.
+		verifYield(&sl.mu, true)
+		sl.mu.Lock()
+		defer sl.mu.Unlock()
+
+		nParent.addChild(nPI.Part(), sl)
+
+		sl.nlink++
+
+		return false, nil
+	}
+
 	c, ok := oChild.(*fileNode)
 	if !ok {
 		if vfs.OSType() == avfs.OsWindows {
